@@ -170,9 +170,29 @@ func Project(m proto.Message, mask *fieldmaskpb.FieldMask) proto.Message {
 	}
 	out := m.ProtoReflect().New()
 	for _, p := range mask.Paths {
+		// a path that one of its parents (or an earlier copy of itself) already selects adds nothing - and must not
+		// be copied again: merging a message twice doubles its repeated fields and its unknown fields
+		covered := false
+		for j, q := range mask.Paths {
+			if (q != p && strings.HasPrefix(p, q+".")) || (q == p && j < indexOf(mask.Paths, p)) {
+				covered = true
+			}
+		}
+		if covered {
+			continue
+		}
 		copyPath(out, m.ProtoReflect(), strings.Split(p, "."))
 	}
 	return out.Interface()
+}
+
+func indexOf(l []string, x string) int {
+	for i, e := range l {
+		if e == x {
+			return i
+		}
+	}
+	return -1
 }
 
 func copyPath(dst, src protoreflect.Message, segs []string) {
